@@ -3,6 +3,7 @@ import LyModel.Text.Drv
 import LyModel.XsdRe.Drv
 import LyModel.Val.Drv
 import LyModel.Path.Drv
+import LyModel.Lyb.Drv
 /-! Dispatch table of the line-protocol driver: one handler per component. -/
 namespace LyModel.Drv
 
@@ -13,6 +14,7 @@ def dispatch (comp op : String) (args : List String) : String :=
   | "xsdre" => XsdRe.Drv.handle op args
   | "val" => Val.Drv.handle op args
   | "path" => Path.Drv.handle op args
+  | "lyb" => Lyb.Drv.handle op args
   | _ => "err NoSuchComponent"
 
 end LyModel.Drv
